@@ -119,6 +119,43 @@ func main() {
 		jobs = append(jobs, vlib.E1Job{Name: fmt.Sprintf("c07-transition/%s/n=%d/t=%d/specs=%d", j.scheme, j.n, j.t, len(sc.Reshares)), Bound: j.bound,
 			Run: func(devs []vrt.Dev) *explore.Exec { return run(sc, devs, false) }, Labeled: func(devs []vrt.Dev) *explore.Exec { return run(sc, devs, true) }})
 	}
+	// c07-thr-down: a resharing that lowers the threshold (4 of 3 -> 3 of 2, 5 of 4 -> 5 of 3); after the transition
+	// members stop until exactly the NEW threshold of the live group is up (fewer than the old threshold): the chain
+	// must carry on with them
+	type down struct {
+		scheme       string
+		n, t, n2, t2 int
+		stop         []int
+	}
+	downs := []down{{crypto.DefaultSchemeID, 4, 3, 3, 2, []int{2}}}
+	if !c.Quick() {
+		downs = append(downs, down{crypto.UnchainedSchemeID, 4, 3, 3, 2, []int{0}}, down{crypto.DefaultSchemeID, 5, 4, 5, 3, []int{1, 4}},
+			down{crypto.SigsOnG1ID, 4, 3, 3, 2, []int{1}})
+	}
+	for _, d := range downs {
+		k := bnet.NewKeys(d.scheme, d.n, d.t, 3*time.Second, genesis)
+		be := make([]string, d.n)
+		for i := range be {
+			be[i] = "memdb"
+		}
+		var keep []int
+		for i := 0; i < d.n2; i++ {
+			keep = append(keep, i)
+		}
+		nk := k.Reshare(d.n2, d.t2, keep)
+		var rs []*bnet.ReshareSpec
+		for _, la := range []uint64{T - 3, T - 1} {
+			rs = append(rs, &bnet.ReshareSpec{Name: fmt.Sprintf("threshold-down-%d/%d->%d/%d/learn@r%d", d.t, d.n, d.t2, d.n2, la), New: nk, Keep: keep,
+				LearnAtRound: la, TransitionRound: T})
+		}
+		var script []bnet.Fault
+		for _, nd := range d.stop {
+			script = append(script, bnet.Fault{Kind: "stop", Node: nd, AtRound: T + 2})
+		}
+		sc := &bnet.Scenario{Keys: k, Backends: be, Rounds: 11, Reshares: rs, Scripts: [][]bnet.Fault{script}}
+		jobs = append(jobs, vlib.E1Job{Name: fmt.Sprintf("c07-thr-down/%s/n=%d/t=%d->n=%d/t=%d/stopped-after-transition=%v", d.scheme, d.n, d.t, d.n2, d.t2, d.stop), Bound: 0,
+			Run: func(devs []vrt.Dev) *explore.Exec { return run(sc, devs, false) }, Labeled: func(devs []vrt.Dev) *explore.Exec { return run(sc, devs, true) }})
+	}
 	c.E1Batch(jobs, time.Until(c.DeadlineIn(120*time.Second, 30*time.Minute)))
 	dkgCheck(c)
 	c.Assume("c07-transition: the new group and shares are produced by the harness as a fresh polynomial over the same secret (what a resharing computes); the hand-over to the handlers uses the repository's TransitionNewGroup / Transition / StopAt exactly as internal/core does",
